@@ -362,6 +362,15 @@ func extractTagTokensFromComment(tok parser.Token) []semanticToken {
 	baseLine := uint32(tok.Pos.Line - 1)
 	baseCol := uint32(tok.Pos.Column - 1)
 
+	// Positions inside the comment are found in bytes and reported in UTF-16 code units:
+	// units is the UTF-16 length of commentText[:counted], counted only moves forward.
+	units, counted := 0, 0
+	utf16Offset := func(byteOffset int) uint32 {
+		units += lsputil.UTF16Len(commentText[counted:byteOffset])
+		counted = byteOffset
+		return uint32(units)
+	}
+
 	// Tags are separated by commas. partStart is where the current part begins in the
 	// comment text, so that every tag is placed inside its own part.
 	partStart := 0
@@ -388,8 +397,8 @@ func extractTagTokensFromComment(tok parser.Token) []semanticToken {
 		// +1 to baseCol accounts for the semicolon that starts the comment
 		tokens = append(tokens, semanticToken{
 			line:      baseLine,
-			col:       baseCol + 1 + uint32(tagStart),
-			length:    uint32(len(name) + 1),
+			col:       baseCol + 1 + utf16Offset(tagStart),
+			length:    uint32(lsputil.UTF16Len(name) + 1),
 			tokenType: TokenTypeTag,
 			modifiers: 0,
 		})
@@ -401,8 +410,8 @@ func extractTagTokensFromComment(tok parser.Token) []semanticToken {
 			valueStart := tagNameEnd + leadingSpace(rest)
 			tokens = append(tokens, semanticToken{
 				line:      baseLine,
-				col:       baseCol + 1 + uint32(valueStart),
-				length:    uint32(len(value)),
+				col:       baseCol + 1 + utf16Offset(valueStart),
+				length:    uint32(lsputil.UTF16Len(value)),
 				tokenType: TokenTypeTagValue,
 				modifiers: 0,
 			})
